@@ -113,6 +113,31 @@ theorem values_are_the_merged_deltas_once (cx : Ctx) (hwf : wfCheck3 cx.blocks =
       ((cs.foldl (mergeDoc cx) {}).doc d).vals = l.foldl applyDelta {} :=
   (deliveries_docInv cx (wfCheck3_sound cx.blocks hwf) hknown d cs {} h (docInv_empty cx.blocks)).2.2.1
 
+/-- **The document as a closed formula of its merged blocks, after every history.** With `l` the merged blocks of the
+    document (each once): every counter is the sum of their increments, the document is deleted exactly when one of
+    them deletes it, and every register holds a value one of them wrote and none of them exceeds in (height, bytes)
+    order. This is `canon`, the specification `drv crdt` compares the implementation with after every step — here
+    proved of the model for all histories. -/
+theorem document_is_the_closed_form_of_its_merged_blocks (cx : Ctx) (hwf : wfCheck3 cx.blocks = true)
+    (hknown : ∀ l, (cx.blocks.get? l).isSome = true → cx.known l = true) (d : String) (cs : List Block)
+    (h : ∀ c ∈ cs, cx.blocks.get? c.id = some c ∧ c.kind = .comp) :
+    ∃ l : List Block, (l.map (·.id)).Nodup ∧
+      (∀ b, b ∈ l ↔ MergedIn cx.blocks ((cs.foldl (mergeDoc cx) {}).doc d) b) ∧
+      (∀ f, ((((cs.foldl (mergeDoc cx) {}).doc d).vals).ctr f).getD 0 = (l.map (ctrOf f)).sum) ∧
+      ((((cs.foldl (mergeDoc cx) {}).doc d).vals).marker = some true ↔ ∃ b ∈ l, isDelete b = true) ∧
+      (∀ f r, (((cs.foldl (mergeDoc cx) {}).doc d).vals).lww f = some r →
+        (∃ b ∈ l, lwwOf f b = some r) ∧ ∀ b ∈ l, ∀ x, lwwOf f b = some x → ple x r) := by
+  obtain ⟨l, hn, hm, hv⟩ := values_are_the_merged_deltas_once cx hwf hknown d cs h
+  refine ⟨l, hn, hm, ?_, ?_, ?_⟩
+  · intro f
+    rw [hv, foldl_ctr]
+    simp
+  · rw [hv, foldl_marker]
+    simp
+  · intro f r hr
+    rw [hv] at hr
+    exact Props.C02.register_holds_a_latest_write l f r hr
+
 /-- the counter store of C02 delivered in two different ways: head first (the ancestor comes with it) or one by one -/
 example :
     let cx : Ctx := ⟨Props.C02.counterStore, fun _ => true⟩
